@@ -30,7 +30,7 @@ ASSUMPTIONS = [
     "a frame whose reference reading contains an undefined or not-available code may be rejected (connection reset) or delivered with the defined fields right",
     "after a malformed point the rest of that connection's bytes carry no obligation (the client resets the connection)",
 ]
-PROBES = ["c17.longer_stride_repeated", "c17.declared_count_mismatch", "c17.unknown_type", "c17.unknown_ext_sub", "c17.unknown_cs_sub", "c17.longer_stride", "c17.mutated_len", "c17.mutated_type",
+PROBES = ["c17.long_unknown_frame", "c17.longer_stride_repeated", "c17.declared_count_mismatch", "c17.unknown_type", "c17.unknown_ext_sub", "c17.unknown_cs_sub", "c17.longer_stride", "c17.mutated_len", "c17.mutated_type",
           "c17.mutated_payload", "c17.truncated", "c17.random", "c17.rejected_then_recovered"]
 
 
@@ -54,7 +54,11 @@ def generate(rng, index: int, tier: str) -> dict:
     frames = []
     if cls == "unknown":
         for _ in range(rng.choice([1, 2, 3, 5])):
-            if rng.random() < 0.65:
+            if rng.random() < 0.05:
+                # "all payloads": an unknown frame far longer than anything defined (16-bit length field)
+                f, k = framegen.long_frame(rng, gen, size=rng.choice(framegen.LONG_SIZES + (20000, 65000)))
+                info["long"] = True
+            elif rng.random() < 0.65:
                 f, k = framegen.unknown_frame(rng, gen)
             else:
                 f, k = framegen.frame(rng, gen)
@@ -178,6 +182,8 @@ def execute(sc: dict) -> dict:
     t_pr = prb["at"] if prb else 1e9
     got = [m for m in w.messages if t_in <= m["t"] < t_pr]
     refs = [wire.read(f) for f in frames]
+    if any(len(f["raw"]) > 1040 for f in frames):
+        probes["c17.long_unknown_frame"] = 1
     for r in refs:
         if r["kind"] == "unknown":
             probes["c17.unknown_type"] = 1
